@@ -9,6 +9,7 @@ import (
 	"encoding/json"
 	"fmt"
 	"os"
+	"runtime"
 	"strconv"
 	"strings"
 )
@@ -105,12 +106,38 @@ func verifParam(name string, def int) int {
 	return def
 }
 
-func verifSetAllocBudget(n int) {}
+var verifAlloc struct {
+	budget uint64
+	base   uint64
+	on     bool
+}
+
+// verifSetAllocBudget starts metering allocations: natively the Go heap's TotalAlloc is sampled.
+func verifSetAllocBudget(n int) {
+	var m runtime.MemStats
+	runtime.ReadMemStats(&m)
+	verifAlloc.budget, verifAlloc.base, verifAlloc.on = uint64(n), m.TotalAlloc, true
+}
+
+// verifAllocDone reports an untrusted allocation when far more than budget bytes (plus slack for
+// bookkeeping) were allocated since verifSetAllocBudget.
+func verifAllocDone() {
+	if !verifAlloc.on {
+		return
+	}
+	verifAlloc.on = false
+	var m runtime.MemStats
+	runtime.ReadMemStats(&m)
+	if m.TotalAlloc-verifAlloc.base > 64*verifAlloc.budget+(1<<20) {
+		verifState.fails = append(verifState.fails, "untrusted-alloc")
+		fmt.Printf("VERIF-ASSERT-FAIL untrusted-alloc\n")
+	}
+}
 
 // verifQuiesce / verifAdvanceClock / verifBlockedInfo only have meaning under the engine's scheduler.
-func verifQuiesce() int            { return 0 }
-func verifAdvanceClock(d int64)    {}
-func verifBlockedInfo() string     { return "" }
+func verifQuiesce() int         { return 0 }
+func verifAdvanceClock(d int64) {}
+func verifBlockedInfo() string  { return "" }
 
 func verifRunCase(k int, c *verifCase) (failed bool) {
 	verifState.c = c
